@@ -50,3 +50,5 @@ CONSTANTS
  LateFrames = TRUE
  CrossVersion = FALSE
  Restore = FALSE
+ Regulate_ = FALSE
+ OptFlips = {}
